@@ -19,7 +19,7 @@ Definition ho_send_message_generates_id_when : nat := 1. (* 1: id == "", 2: attr
 Definition ho_send_message_registers_completed_id : bool := true.
 Definition ho_send_presence_generates_id_when : nat := 1. (* 1: id == "", 2: attribute absent, 3: other, 0: never *)
 Definition ho_send_presence_registers_completed_id : bool := true.
-Definition ho_errcloser_token_closes : nat := 1. (* 0 nothing, 1 the guarded Close, 2 the embedded reader *)
+Definition ho_errcloser_token_closes : nat := 2. (* 0 nothing, 1 the guarded Close, 2 the embedded reader *)
 Definition ho_errcloser_close_once : bool := true.
 Definition ho_iter_wraps_response : bool := true.
 Definition ho_iter_closes_on_error_return : bool := true.
